@@ -4,7 +4,8 @@
 (*   {"ev": action, "m": message | "s": answers the double gave during the call | "c","h",      *)
 (*    "txes": queue after the call, "sent"/"wl"/"rl"/"dl": what the call added to the bytes      *)
 (*    accepted by the socket / to the wire log (tx, rx) / to the bytes handed out by the socket, *)
-(*    "rxbs": receive buffer after the call, "cutoff", "connected", "accepted", "res"}           *)
+(*    "rxbs": receive buffer after the call, "cutoff", "connected", "accepted", "res",           *)
+(*    "intact": the buffers handed to tx() so far still hold what the caller put in them}        *)
 (* preceded by a header event {"ev": "Init", "flavor": transport class}.                        *)
 EXTENDS TxStream, TraceBatch
 
@@ -19,7 +20,9 @@ TraceInit == /\ tid \in 1..NTraces
              /\ flavor = EvAt(tid, 1).flavor
 
 \* what the real object showed after the call must be exactly what the specification's action yields
+\* (Ev.intact: no buffer the caller handed to tx() was modified by the transport)
 Logged == /\ txes' = Ev.txes
+          /\ Ev.intact
           /\ wire' = wire \o Ev.sent
           /\ rxbs' = Ev.rxbs
           /\ delivered' = delivered \o Ev.dl
